@@ -213,8 +213,12 @@ func runProperty(repo, verif, id, tier string, seed int, controls bool) int {
 	}
 
 	var ctl *controlsEvidence
+	var sweep *SweepEvidence
 	if tier == "thorough" && controls {
 		ctl = runControls(repo, verif, id, results[0])
+		if os.Getenv("AGECHECK_NO_SWEEP") == "" {
+			sweep = runSweep(repo, id, results[0])
+		}
 	}
 
 	violations := 0
@@ -258,7 +262,11 @@ func runProperty(repo, verif, id, tier string, seed int, controls bool) int {
 	if def.NotDecided != "" {
 		expl += " NOT DECIDED (left to the tests): " + def.NotDecided
 	}
-	if err := writeEvidence(verif, id, tier, seed, wall, results, cfgNames, violations, known, expl, def.Assumptions, ctl, nil); err != nil {
+	var extra map[string]interface{}
+	if sweep != nil {
+		extra = map[string]interface{}{"neutralisation_sweep": sweep}
+	}
+	if err := writeEvidence(verif, id, tier, seed, wall, results, cfgNames, violations, known, expl, def.Assumptions, ctl, extra); err != nil {
 		fmt.Printf("VIOLATION property=%s replay=%s\n", id, "evidence-write-failed")
 		return 1
 	}
